@@ -90,6 +90,7 @@ type Results struct {
 	StubsUsed      map[string]int64 `json:"stubs_used"`
 	OpaqueCalls    map[string]int64 `json:"opaque_calls"`
 	InitWarnings   map[string]int64 `json:"init_warnings"`
+	ForkSites      map[string]int64 `json:"fork_sites"`
 	Samples        []map[string]interface{} `json:"samples"`
 	WallS          float64          `json:"wall_s"`
 	Aborted        string           `json:"aborted,omitempty"`
@@ -99,7 +100,7 @@ func newResults() *Results {
 	return &Results{Covers: map[string]int64{}, ViolationCount: map[string]int64{}, KnownHits: map[string]int64{},
 		Unsupported: map[string]int64{}, BoundExceeded: map[string]int64{}, Functions: map[string]int64{},
 		InstrKinds: map[string]int64{}, Intrinsics: map[string]int64{}, StubsUsed: map[string]int64{},
-		OpaqueCalls: map[string]int64{}, InitWarnings: map[string]int64{}}
+		OpaqueCalls: map[string]int64{}, InitWarnings: map[string]int64{}, ForkSites: map[string]int64{}}
 }
 
 // Engine holds the program and the exploration state of one job.
@@ -254,6 +255,7 @@ func (e *Engine) mergeWorker(w *Worker) {
 	addCounts(r.StubsUsed, s.StubsUsed)
 	addCounts(r.OpaqueCalls, s.OpaqueCalls)
 	addCounts(r.InitWarnings, s.InitWarnings)
+	addCounts(r.ForkSites, s.ForkSites)
 	st := w.solver.Stats
 	r.Queries.Queries += st.Queries
 	r.Queries.Sat += st.Sat
@@ -505,6 +507,13 @@ func (p *Path) branch1(cond *Term) bool {
 	p.eng.pushWork(alt)
 	p.trace = append(p.trace, Decision{Kind: 'b', Val: 1})
 	s.Assert(cond)
+	if th := p.cur; th != nil && th.top != nil {
+		site := th.top.fn.String()
+		if th.curIns != nil && th.curIns.Pos().IsValid() {
+			site += fmt.Sprintf(":%d", th.top.fn.Prog.Fset.Position(th.curIns.Pos()).Line)
+		}
+		p.w.res.ForkSites[site]++
+	}
 	return true
 }
 
@@ -656,54 +665,60 @@ func (p *Path) lookupName(name string) *Term {
 // fail records a violation (with a model, outside the open known findings if
 // possible) and ends the path.
 func (p *Path) fail(kind, id, msg string) {
+	p.violation(kind, id, msg, nil)
+	p.stop("violation:" + id)
+}
+
+// violation asks the solver for a model of (path condition ∧ extra) that lies
+// outside every open known-finding predicate for this assertion id; if there is
+// none, for one inside a known finding. Returns false when pc ∧ extra is
+// unsatisfiable (the assertion holds on this path).
+func (p *Path) violation(kind, id, msg string, extra *Term) bool {
 	e := p.eng
 	s := p.w.solver
 	p.w.res.AssertQueries++
-	// 1. a model outside every open known-finding predicate for this id?
-	var negs []*Term
-	var applicable []KnownPred
-	for _, k := range e.Cfg.Known {
-		if k.FailID == id {
-			applicable = append(applicable, k)
-			negs = append(negs, Not(p.predTerm(k)))
-		}
+	var base []*Term
+	if extra != nil {
+		base = append(base, extra)
 	}
 	vars := append([]*Term{}, p.nondet...)
 	for _, n := range p.tagOrder {
 		t := p.tags[n]
 		if t.Op != OpConst {
 			pv := NewVar("tag:"+n, t.W)
-			negs = append(negs, Eq(pv, t))
+			base = append(base, Eq(pv, t))
 			vars = append(vars, pv)
+		}
+	}
+	var applicable []KnownPred
+	negs := append([]*Term{}, base...)
+	for _, k := range e.Cfg.Known {
+		if k.FailID == id || (strings.HasSuffix(k.FailID, "*") && strings.HasPrefix(id, strings.TrimSuffix(k.FailID, "*"))) {
+			applicable = append(applicable, k)
+			negs = append(negs, Not(p.predTerm(k)))
 		}
 	}
 	m, r := s.Model(vars, negs...)
 	knownID := ""
-	if r != Sat && len(applicable) > 0 {
+	if r == Unsat && len(applicable) > 0 {
 		// every model of this path lies inside a known finding: find which
 		for _, k := range applicable {
-			extra := []*Term{p.predTerm(k)}
-			for _, n := range p.tagOrder {
-				t := p.tags[n]
-				if t.Op != OpConst {
-					extra = append(extra, Eq(NewVar("tag:"+n, t.W), t))
-				}
-			}
-			m2, r2 := s.Model(vars, extra...)
+			m2, r2 := s.Model(vars, append(append([]*Term{}, base...), p.predTerm(k))...)
 			if r2 == Sat {
 				m, r, knownID = m2, r2, k.ID
 				break
+			}
+			if r2 == Unknown {
+				r = Unknown
 			}
 		}
 	}
 	if r == Unknown {
 		e.noteInconclusive("assertion query unknown at " + id)
-		p.stop("inconclusive")
+		return false
 	}
 	if r == Unsat {
-		// the path condition itself is unsatisfiable: cannot happen if every
-		// assumption was checked; treat as infeasible
-		p.stop("infeasible")
+		return false
 	}
 	for _, n := range p.tagOrder {
 		if t := p.tags[n]; t.Op == OpConst {
@@ -729,7 +744,7 @@ func (p *Path) fail(kind, id, msg string) {
 		e.res.Violations = append(e.res.Violations, v)
 	}
 	e.mu.Unlock()
-	p.stop("violation:" + id)
+	return true
 }
 
 func (p *Path) reportPanic(th *Thread, gp *GoPanic) (ret interface{}) {
